@@ -18,6 +18,15 @@ def check(w):
     v = Verdict(w, "model_checking")
     fam = "c09q" if w.tier == "quick" else "c09"
     r, cov, scen = p_recv.design_and_generate(w, fam)
+    nscen = len(scen)
+    if w.tier == "quick":
+        # the family is model-checked completely; a seeded quarter of it (plus every scenario in which a listed name
+        # sorts differently in list order and walk order: "+p" before ".", "d-" between "d" and "d/a") is replayed
+        import random
+        quirk = [s for s in scen if {"+p", "d-"} & {e["name"] for e in s["list"]} and len(s["dst"]) > 3]
+        rest = [s for s in scen if s not in quirk]
+        rnd = random.Random(w.seed)
+        scen = rnd.sample(quirk, min(len(quirk), 1500)) + rnd.sample(rest, min(len(rest), 2000))
     counts = {"traces": 0, "trace_states": 0}
     obs, rej = p_recv.run_validate_confirm(w, fam, scen, "c09", v, counts, sig, judge=JUDGE)
     nneg = p_recv.negative_controls(w, fam, obs, rej, w.seed)
@@ -28,7 +37,7 @@ def check(w):
     multi = sum(1 for o in obs if nextra(o) > 1)
     v.coverage = {
         "states": r["distinct"], "transitions": r["generated"],
-        "traces_validated_against_impl": counts["traces"], "trace_states": counts["trace_states"], "exhaustive": True,
+        "traces_validated_against_impl": counts["traces"], "trace_states": counts["trace_states"], "exhaustive": w.tier != "quick", "scenarios_model_checked": nscen,
         "samples": [{"dst": [n["p"] for n in o["dst"]], "listed": [e["name"] for e in o["list"]], "opts": o["opts"], "ioerr": o["ioerr"], "recv": o["recv"],
                      "final": [n["p"] for n in o["final"]], "result": o["result"]} for o in obs if nextra(o) > 1][:3],
         "scenarios": len(scen), "evaluations": len(obs), "distinct_nontrivial": nontriv, "with_several_extraneous": multi,
